@@ -63,8 +63,8 @@ var pureInvokes = map[string]bool{
 	"github.com/insomniacslk/dhcp/dhcpv6.Option.Code":            true,
 	"github.com/insomniacslk/dhcp/dhcpv6.Option.ToBytes":         true,
 	"github.com/insomniacslk/dhcp/dhcpv6.Option.String":          true,
-	"error.Error":     true,
-	"net.Addr.String": true,
+	"error.Error":         true,
+	"net.Addr.String":     true,
 	"fmt.Stringer.String": true,
 }
 
